@@ -29,6 +29,7 @@ from typing import cast
 from typing import overload
 
 from gemseo.caches.base_full_cache import BaseFullCache
+from gemseo.utils.data_conversion import deepcopy_dict_of_arrays
 from gemseo.utils.data_conversion import nest_flat_bilevel_dict
 from gemseo.utils.locks import synchronized
 from gemseo.utils.multiprocessing.manager import get_multi_processing_manager
@@ -135,7 +136,12 @@ class MemoryFullCache(BaseFullCache):
         index: int,
     ) -> None:
         data = self.__data[index]
-        data[group] = copy(values)
+        if self.__is_memory_shared:
+            # The shared memory dictionary pickles the values, i.e. copies the arrays.
+            data[group] = copy(values)
+        else:
+            # Do not store references to arrays that the caller may modify in place.
+            data[group] = deepcopy_dict_of_arrays(values)
         self.__data[index] = data
 
     @property
